@@ -635,8 +635,11 @@ impl<T: AsRef<[u8]> + AsMut<[u8]>> UdpNhcPacket<T> {
 
     /// Set the dispatch field to `0b11110`.
     fn set_dispatch_field(&mut self) {
+        // Start from a clean header octet: the checksum (C) and ports (P) bits are only
+        // ever set by the setters that follow, and C is not touched at all when the
+        // checksum is not filled in, so they must not survive from the buffer's old content.
         let data = self.buffer.as_mut();
-        data[0] = (data[0] & !(0b11111 << 3)) | (DISPATCH_UDP_HEADER << 3);
+        data[0] = DISPATCH_UDP_HEADER << 3;
     }
 
     set_field!(set_checksum_field, 0b1, 2);
